@@ -38,5 +38,10 @@
 #define VERIF_LOOP_mesh_retry __CPROVER_assigns(ret, RNG_STATE_FRAME) __CPROVER_loop_invariant(1 == 1)
 #endif
 
+/* ---- src/datatypes/msg_queue.c: CAS retry loop of msg_queue_insert (lock-freedom is not proved: no decreases) */
+#ifndef VERIF_LOOP_insert_cas
+#define VERIF_LOOP_insert_cas /* default: sequential semantics, the CAS succeeds at once; the interference harness overrides this */
+#endif
+
 #endif /* !VERIF_NATIVE */
 #endif
